@@ -727,4 +727,142 @@ theorem unescape_htmlEscape_url (x : Str) (h : x.all urlByte = true) : unescapeR
         simp only [htmlRepl, ht, Bool.not_true, Bool.false_and, Bool.false_eq_true, if_false, List.cons_append, List.nil_append]
         rw [unescapeRefs_other _ _ h38, ihr]
 
+/-! ## a lead byte ≥ 0x80 never decodes to an ASCII rune -/
+
+theorem dec2_high (s0 : Nat) (rest : Str) (h1 : 0xC2 ≤ s0) (h2 : s0 < 0xE0) : 0x80 ≤ (dec2 s0 rest).1 := by
+  cases rest with
+  | nil => simp [dec2]
+  | cons s1 t =>
+    by_cases h : isCont s1 = true
+    · simp [dec2, h]; omega
+    · simp [dec2, h]
+
+theorem dec3_high (s0 : Nat) (rest : Str) (h1 : 0xE0 ≤ s0) (h2 : s0 < 0xF0) : 0x80 ≤ (dec3 s0 rest).1 := by
+  match rest with
+  | [] => simp [dec3]
+  | [_] => simp [dec3]
+  | s1 :: s2 :: t =>
+    by_cases h : (decide (lo2 s0 ≤ s1) && decide (s1 ≤ hi2 s0) && isCont s2) = true
+    · have h' := h
+      simp only [Bool.and_eq_true, decide_eq_true_eq] at h'
+      by_cases he : s0 = 0xE0
+      · have hlo : 0xA0 ≤ s1 := by have := h'.1.1; simp [lo2, he] at this; exact this
+        have hhi : s1 ≤ 0xBF := by have := h'.1.2; simp [hi2, he] at this; exact this
+        simp [dec3, h]; omega
+      · simp [dec3, h]; omega
+    · simp [dec3, h]
+
+theorem dec4_high (s0 : Nat) (rest : Str) (h1 : 0xF0 ≤ s0) (h2 : s0 < 0xF5) : 0x80 ≤ (dec4 s0 rest).1 := by
+  match rest with
+  | [] => simp [dec4]
+  | [_] => simp [dec4]
+  | [_, _] => simp [dec4]
+  | s1 :: s2 :: s3 :: t =>
+    by_cases h : (decide (lo2 s0 ≤ s1) && decide (s1 ≤ hi2 s0) && isCont s2 && isCont s3) = true
+    · have h' := h
+      simp only [Bool.and_eq_true, decide_eq_true_eq] at h'
+      by_cases he : s0 = 0xF0
+      · have hlo : 0x90 ≤ s1 := by have := h'.1.1.1; simp [lo2, he] at this; exact this
+        have hhi : s1 ≤ 0xBF := by have := h'.1.1.2; simp [hi2, he] at this; exact this
+        simp [dec4, h]; omega
+      · simp [dec4, h]; omega
+    · simp [dec4, h]
+
+theorem decodeRune_high (s0 : Nat) (rest : Str) (h0 : 0x80 ≤ s0) : 0x80 ≤ (decodeRune (s0 :: rest)).1 := by
+  have h1 : ¬ s0 < 0x80 := by omega
+  by_cases h2 : s0 < 0xC2
+  · simp [decodeRune, h1, h2]
+  · by_cases h3 : s0 < 0xE0
+    · simp only [decodeRune, h1, h2, h3, if_false, if_true]; exact dec2_high _ _ (by omega) h3
+    · by_cases h4 : s0 < 0xF0
+      · simp only [decodeRune, h1, h2, h3, h4, if_false, if_true]; exact dec3_high _ _ (by omega) h4
+      · by_cases h5 : s0 < 0xF5
+        · simp only [decodeRune, h1, h2, h3, h4, h5, if_false, if_true]; exact dec4_high _ _ (by omega) h5
+        · simp [decodeRune, h1, h2, h3, h4, h5]
+
+/-! ## fidelity: the browser's character-reference decoding gives back the value -/
+
+theorem unescapeRefs_no_amp (l rest : Str) (h : ∀ b ∈ l, b ≠ 38) : unescapeRefs (l ++ rest) = l ++ unescapeRefs rest := by
+  induction l with
+  | nil => rfl
+  | cons c t ih =>
+    rw [List.cons_append, unescapeRefs_other _ _ (h c (by simp)), ih (fun b hb => h b (by simp [hb]))]
+    rfl
+
+theorem unescapeRefs_tbl (r : Nat) (t rest : Str) (h : htmlTbl r = some t) (h0 : r ≠ 0) :
+    unescapeRefs (t ++ rest) = r :: unescapeRefs rest := by
+  unfold htmlTbl at h
+  split at h
+  · exact absurd rfl h0
+  all_goals first
+    | (cases h; simp [unescapeRefs])
+    | cases h
+
+theorem htmlTbl_none_ne_amp (r : Nat) (h : htmlTbl r = none) : r ≠ 38 := by
+  intro h38; subst h38; simp [htmlTbl] at h
+
+theorem htmlTbl_some_lt (r : Nat) (t : Str) (h : htmlTbl r = some t) : r < 0x80 := by
+  unfold htmlTbl at h
+  split at h <;> first | omega | cases h
+
+theorem unescape_htmlEscape_loop : ∀ fuel s, s.length ≤ fuel → (∀ b ∈ s, b ≠ 0) →
+    unescapeRefs (runeLoop (htmlRepl htmlTbl true) fuel s) = s := by
+  intro fuel
+  induction fuel with
+  | zero =>
+    intro s hl _
+    have : s = [] := List.eq_nil_of_length_eq_zero (by omega)
+    subst this
+    simp [runeLoop, unescapeRefs]
+  | succ n ih =>
+    intro s hl h0
+    cases s with
+    | nil => simp [runeLoop, unescapeRefs]
+    | cons c rest =>
+      have hw := decodeRune_width_pos c rest
+      have hdl : ((c :: rest).drop (decodeRune (c :: rest)).2).length ≤ n := by
+        simp only [List.length_drop, List.length_cons] at hl ⊢
+        omega
+      have hd0 : ∀ b ∈ (c :: rest).drop (decodeRune (c :: rest)).2, b ≠ 0 :=
+        fun b hb => h0 b (List.mem_of_mem_drop hb)
+      have ihd := ih _ hdl hd0
+      simp only [runeLoop]
+      have hsplit : (c :: rest).take (decodeRune (c :: rest)).2 ++ (c :: rest).drop (decodeRune (c :: rest)).2 = c :: rest :=
+        List.take_append_drop _ _
+      cases ht : htmlTbl (decodeRune (c :: rest)).1 with
+      | some t =>
+        have hlt := htmlTbl_some_lt _ _ ht
+        rcases decodeRune_spec c rest with ⟨htake, _⟩ | hge
+        · have hr0 : (decodeRune (c :: rest)).1 ≠ 0 := by
+            intro hz
+            have : (decodeRune (c :: rest)).1 ∈ c :: rest := by
+              have : (decodeRune (c :: rest)).1 ∈ (c :: rest).take (decodeRune (c :: rest)).2 := by rw [htake]; simp
+              exact List.mem_of_mem_take this
+            exact h0 _ this hz
+          have hfin : (decodeRune (c :: rest)).1 :: (c :: rest).drop (decodeRune (c :: rest)).2 = c :: rest := by
+            have := hsplit
+            rw [htake] at this
+            exact this
+          simp only [htmlRepl, ht]
+          rw [unescapeRefs_tbl _ _ _ ht hr0, ihd]
+          exact hfin
+        · -- a table entry is ASCII, so the rune is the first byte, which is then < 0x80: contradiction with `hge`
+          exfalso
+          have hc80 : 0x80 ≤ c := hge c (by
+            rw [take_cons_pred _ _ _ hw]; simp)
+          have := decodeRune_high c rest hc80
+          omega
+      | none =>
+        simp only [htmlRepl, ht, Bool.not_true, Bool.false_and, Bool.false_eq_true, if_false]
+        have hna : ∀ b ∈ (c :: rest).take (decodeRune (c :: rest)).2, b ≠ 38 := by
+          intro b hb
+          rcases decodeRune_spec c rest with ⟨htake, _⟩ | hge
+          · rw [htake] at hb
+            simp at hb
+            subst hb
+            exact htmlTbl_none_ne_amp _ ht
+          · have := hge b hb
+            omega
+        rw [unescapeRefs_no_amp _ _ hna, ihd, hsplit]
+
 end ZoektModel.C36
